@@ -137,6 +137,36 @@ def microstep_scenario(r, it, tier, idx):
             sim.probe("A")
     return sim
 
+def floor_scenario(r, it, tier, idx):
+    """normal start, a long silence (slow-start halvings down to the s/64 floor), then feedback reporting loss
+    (equation phase entered at half the floor rate), then silence again (no-feedback rule in the equation phase)."""
+    cfg = pick_cfg(r)
+    bw = r.pick([20000, 200000, 2_000_000])
+    cfg["bwA"] = bw; cfg["rbwB"] = bw; cfg["bwB"] = 2_000_000; cfg["rbwA"] = 2_000_000
+    cfg["allocA"] = cfg["allocB"] = 1_000_000; cfg["fw"] = 4096; cfg["pw"] = 4096
+    sim = Sim(r, cfg, inter=it)
+    sim.ceiling = {"A": bw, "B": 2_000_000}
+    lat = r.pick([1_000_000, 10_000_000])
+    sim.meta = {"dt": 5_000_000, "bw": bw, "extra": 0, "lat": lat}
+    def traffic(sim, ep):
+        if ep == "A" and (sim.tick <= 2 or r.chance(1, 20)):
+            for _ in range(6):
+                sim.send("A", r.below(4), 3, 1448)
+    ok = Net(latency=lat); dead = Net(loss=1000)
+    sim.run(r.range(20, 60), 5_000_000, ok, ok, traffic, probe_every=1)
+    # silence: the reverse path is closed until the rate has been halved to the floor
+    for k in range(900):
+        sim.run(1, 1_000_000_000, ok, dead, traffic, probe_every=1)
+        if sim.dead or (sim.probes["A"] and int(sim.probes["A"][-1]["rate"][0]) <= 23):
+            break
+    # feedback again, with losses on the forward path (every other data frame)
+    for k in range(400):
+        sim.run(1, 250_000_000, Net(latency=lat, loss=500), ok, traffic, probe_every=1)
+        if sim.dead or sim.probes["A"][-1]["rate"][2] == "2":
+            break
+    sim.run(r.range(300, 600), 1_000_000_000, ok, dead, traffic, probe_every=1)
+    return sim
+
 def fine_cadence_scenario(r, it, tier, idx):
     """ceiling of one frame per second, sub-millisecond stepping, acks flowing."""
     cfg = pick_cfg(r)
@@ -162,7 +192,7 @@ def streams(rng, tier, ctx):
         for i in range(n):
             r = rng.fork()
             it.op("=== gen%d" % i)
-            fam = [rate_scenario, rate_scenario, blackout_scenario, fine_cadence_scenario, microstep_scenario, bunch_scenario][i % 6]
+            fam = [rate_scenario, floor_scenario, blackout_scenario, fine_cadence_scenario, microstep_scenario, bunch_scenario][i % 6]
             sim = fam(r, it, tier, i)
             cid = "r%d" % i
             cases.append((cid, sim.ops)); meta[cid] = sim
